@@ -130,6 +130,37 @@ def write_if_changed(path, content):
     return False
 
 
+def regen_all():
+    """run EVERY translator and rewrite lean/**/Gen/*.lean from /repo's current working tree, so that no generated file is stale
+    (left over from a run on a differently patched tree).  A translator that fails leaves its file as it is: the property that
+    owns it runs it again itself and reports the failure as an obligation."""
+    sys.path.insert(0, os.path.join(VERIF, "translate"))
+    import importlib
+    table = [("t_bonds", "generate", ["Sympler/Gen/BondsGen.lean"]), ("t_cells", "generate", ["Sympler/Gen/CellTablesGen.lean"]),
+             ("t_dataformat", "generate", ["Sympler/Gen/DataFormatGen.lean"]), ("t_entropy", "generate", ["Sympler/Gen/EntropyGen.lean"]),
+             ("t_funccompile", "generate", ["Sympler/Gen/FuncCompileGen.lean"]), ("t_kernels", "generate_real", ["PropsR/Gen/KernelsReal.lean"]),
+             ("t_kernels", "generate_float", ["Sympler/Gen/KernelsFloat.lean"]), ("t_reflectors", "generate", ["PropsR/Gen/ReflectorsReal.lean"]),
+             ("t_restart", "generate", ["Sympler/Gen/RestartGen.lean"]), ("t_smartlist", "generate", ["Sympler/Gen/SmartListGen.lean"]),
+             ("t_verlet", "generate", ["Sympler/Gen/VerletGen.lean"]), ("t_exprtable", "generate", ["Sympler/Gen/ExprTableGen.lean"]),
+             ("t_dyn", "generate", ["Sympler/Gen/DynGen.lean"])]
+    with Lock("regen"):
+        for mod, fn, outs in table:
+            try:
+                m = importlib.import_module(mod)
+            except ImportError:
+                continue
+            try:
+                f = getattr(m, fn)
+                txt = f(REPO, WORK) if mod == "t_dataformat" else f(REPO)
+                if isinstance(txt, str):
+                    txt = [txt]
+                for o, t in zip(outs, txt):
+                    if write_if_changed(os.path.join(LEAN, o), t):
+                        log("[regen] %s rewritten" % o)
+            except Exception as ex:
+                log("[regen] %s.%s failed (left as is): %r" % (mod, fn, ex))
+
+
 def lake_build(targets, timeout=3000):
     with Lock("lake"):
         t0 = time.time()
@@ -302,6 +333,7 @@ class Ctx:
 def lean_obligations(ctx, lake_targets, audit_imports, theorems, forbidden_modules):
     """step 3 of a check: build, axiom audit, forbidden-token grep.  Returns True iff all discharged.
     Each theorem is one obligation."""
+    regen_all()
     ok, out = lake_build(lake_targets)
     if not ok:
         errs = failed_decls(out)
